@@ -5,6 +5,7 @@
 //!
 //! usage: c01_driver <out.ndjson> <histories> <ops-per-history> [ironwood]     seeded random histories
 //!        c01_driver <out.ndjson> scenarios                                     the scenario library
+//!        c01_driver <out.ndjson> shard-scenarios <n> [pools <m>]               wallets born below shard boundaries
 //! (scenarios: orderings the specification's safeguards exist for — spend scanned before its
 //! receipt across 99..102-block gaps, batches longer than the nullifier retention, rewinds across
 //! spends, orphan expiry at exactly 40 blocks)
@@ -331,6 +332,164 @@ fn shard_scenarios(out: &mut NdjsonWriter, seed: u64, n: u64) {
     }
 }
 
+/// C15, wallet-level insertion sequence (WalletQueue.tla): histories in which the Sapling, Orchard (and, with
+/// NU6.3, Ironwood) shard boundaries DIFFER.  Each tree starts a few commitments below the end of a shard; the
+/// fabricated blocks complete the shards at different heights (in every order of the pools); the wallet first
+/// learns the tip while it knows no subtree root at all (everything Historic, so that FoundNote is visible), then
+/// the roots arrive (shards completed before the first block with end heights that differ per pool, below the
+/// birthday or -- `early` -- between an early birthday and the first block), then single batches discover notes
+/// in one pool, in two, in three; in the shard that is being completed (the range grows upwards to the end of
+/// the shard) and in the next one (it grows downwards to the end of the previous shard); exactly at the last and
+/// at the first position of a shard.  Then the chain grows past the pruning depth (Verify / ChainTip with shard
+/// metadata at the lookahead and stability boundaries), the client syncs, a rewind, more of the same.
+fn shard_pool_scenarios(out: &mut NdjsonWriter, seed: u64, n: u64) {
+    const PERMS3: [[usize; 3]; 6] = [[0, 1, 2], [1, 0, 2], [0, 2, 1], [2, 0, 1], [1, 2, 0], [2, 1, 0]];
+    let all = [Pool::Sapling, Pool::Orchard, Pool::Ironwood];
+    for i in 0..n {
+        let mut rng = ChaChaRng::seed_from_u64(seed ^ (i << 12) ^ 0x5157);
+        let ironwood = i % 3 == 2;
+        let early = (i / 3) % 2 == 1;
+        let np = if ironwood { 3 } else { 2 };
+        // order in which the pools' shards are completed by the fabricated blocks, and in which the shards
+        // completed earlier ended (early birthday): both run through every order of the pools
+        let perm: Vec<usize> = if ironwood { PERMS3[((i / 3) % 6) as usize].to_vec() } else { if (i / 3 + i / 6) % 2 == 0 { vec![0, 1] } else { vec![1, 0] } };
+        let perm2: Vec<usize> = if ironwood { PERMS3[((i / 3 + i / 18 + 1) % 6) as usize].to_vec() } else { if (i / 6) % 2 == 0 { vec![1, 0] } else { vec![0, 1] } };
+        // shards completed before the first block, and commitments left in the current one
+        let prior: [u64; 3] = [1 + (i % 2), (i / 2) % 2, if ironwood { (i / 4) % 2 } else { 0 }];
+        // (exactly one pool at a time is one commitment short of its boundary: its first note is the LAST leaf of a shard)
+        let j = i + i / 3;
+        let left: [u64; 3] = [1 + (j % 3), 1 + ((j + 1) % 3), 1 + ((j + 2) % 3)];
+        let sizes: [u64; 3] = [65536 * (prior[0] + 1) - left[0], 65536 * (prior[1] + 1) - left[1], if ironwood { 65536 * (prior[2] + 1) - left[2] } else { 0 }];
+        let gap = 50u32;
+        let label = json!(format!("pools {i} iw={ironwood} early={early} perm={perm:?} prior={prior:?} left={left:?}"));
+        let (mut r, priors) = Run::sharded_ext(out, seed.wrapping_mul(15_485_863).wrapping_add(i), ironwood, sizes, early, gap, label);
+        let one = |r: &mut Run, outs: &[(Pool, bool)]| {
+            if outs.is_empty() {
+                r.block(&[], &[], false);
+            } else {
+                let outs: Vec<OutReq> = outs.iter().map(|(pool, mine)| { let value = r.value(); OutReq { pool: *pool, acct: if *mine { 1 } else { 0 }, internal: false, diversified: false, value } }).collect();
+                r.block(&[TxReq { outs, spends: vec![], foreign_spends: vec![] }], &[], false);
+            }
+        };
+        let pools: Vec<Pool> = all[..np].to_vec();
+        r.no_env_rewinds = true;
+        // h1 empty; then one block per pool (in the order perm2) with a note of the wallet in the shard that is being
+        // completed (for the pool with one commitment left it is the LAST leaf of the shard); an empty block
+        one(&mut r, &[]);
+        let old_notes_at = r.chain.top() + 1;
+        let mut last_leaf_at = old_notes_at;
+        for (k, pi) in perm2.iter().enumerate() {
+            if left[*pi] == 1 { last_leaf_at = old_notes_at + k as u32; }
+            one(&mut r, &[(all[*pi], true)]);
+        }
+        one(&mut r, &[]);
+        // the pools' shards are completed one after the other, two blocks apart; some boundary blocks also hold the
+        // FIRST leaf of the next shard, and that one is the wallet's
+        let mut remaining: [u64; 3] = [left[0] - 1, left[1] - 1, left[2] - 1];
+        for (j, pi) in perm.iter().enumerate() {
+            let p = all[*pi];
+            let mut outs: Vec<(Pool, bool)> = (0..remaining[*pi]).map(|k| (p, k + 1 == remaining[*pi] && (i + j as u64) % 4 == 1)).collect();
+            remaining[*pi] = 0;
+            if (i + j as u64) % 3 == 0 {
+                outs.push((p, true));
+            }
+            one(&mut r, &outs);
+            one(&mut r, &[]);
+        }
+        // notes in the new shards: every pool in one block, then single pools
+        one(&mut r, &[]);
+        let new_notes_at = r.chain.top() + 1;
+        one(&mut r, &pools.iter().map(|p| (*p, true)).collect::<Vec<_>>());
+        let single_at = r.chain.top() + 1;
+        one(&mut r, &[(all[perm[0]], true)]);
+        let pair_at = r.chain.top() + 1;
+        one(&mut r, &[(all[perm[np - 1]], true), (all[perm[0]], true)]);
+        r.empties(rng.gen_range(2..5));
+        // the wallet learns the tip while it knows no subtree root: everything from the birthday is Historic
+        r.tip_top();
+        // the roots arrive: shards completed before the first block (per pool in one call: the wallet refuses a gap in
+        // its shard table), with end heights that differ per pool; then the ones the fabricated blocks completed
+        let withhold = if i % 5 == 4 { Some(all[perm[0]]) } else { None };   // one pool's new root stays unknown for a while
+        for (pi, pool) in all.iter().enumerate() {
+            let rank = perm2.iter().position(|x| *x == pi).unwrap_or(0) as u32;
+            // early birthday: the last shard before the first block ended 8 + 9 * rank blocks below it, earlier ones 6 blocks apart
+            let mine: Vec<([u8; 32], u32)> = priors
+                .iter()
+                .filter(|(p, _, _)| p == pool)
+                .map(|(_, index, root)| (*root, r.w.base - (8 + 9 * rank + 6 * (prior[pi] - 1 - index) as u32).min(gap - 2)))
+                .collect();
+            r.put_priors(*pool, 0, &mine);
+        }
+        let roots = r.chain.shard_roots.clone();
+        for (pool, index, root, h) in roots.iter().copied() {
+            if Some(pool) != withhold {
+                r.put_priors(pool, index, &[(root, h)]);
+            }
+        }
+        // single batches; which comes first varies (an earlier FoundNote range hides a later one): all the old notes in
+        // one batch, the new ones, one pool, two pools, the last leaf of a shard alone
+        let mut batches: Vec<(u32, usize)> = vec![(old_notes_at, np), (new_notes_at, 1), (single_at, 1), (pair_at, 1), (last_leaf_at, 1), (new_notes_at - 1, 4), (old_notes_at - 1, 2)];
+        match i % 4 {
+            0 => {}
+            1 => batches.swap(0, 1),
+            2 => batches.swap(0, 4),
+            _ => { batches.swap(0, 3); batches.swap(1, 2); }
+        }
+        for (k, (from, len)) in batches.iter().enumerate() {
+            if k >= 5 && rng.gen_bool(0.5) { continue; }
+            r.scan(*from, *len);
+            if k == 1 {
+                if let Some(p) = withhold {
+                    for (pool, index, root, h) in roots.iter().copied() { if pool == p { r.put_priors(pool, index, &[(root, h)]); } }
+                }
+            }
+            if r.aborted { break; }
+        }
+        if r.aborted { continue; }
+        // the chain grows past the pruning depth: the next tip update finds the highest scanned block at a chosen
+        // distance from the stable height (tip - 100): Verify with the lookahead cut short / exactly 10 / the empty
+        // range when they coincide / ChainTip one above; the shard metadata puts ChainTip on the last shard
+        let ms = r.scanned().iter().copied().max().unwrap_or(0) as u32;
+        let want: i64 = [-1i64, 0, 1, 5, 9, 10, 11, 30][(i % 8) as usize];   // stable height - highest scanned height
+        let top = r.w.rel(r.chain.top()) as i64;
+        let need = (ms as i64 + want + 100 - top).max(0) as u32;
+        r.empties(need);
+        r.tip_top();
+        if !early {
+            r.sync_loop(2);
+        } else {
+            // no block below the first fabricated one can be served: scan what is suggested above it, highest priority first
+            for _ in 0..6 {
+                let sug = r.suggest();
+                let Some((s, e, _)) = sug.iter().copied().find(|(s, _, _)| *s > r.chain.base) else { break };
+                let len = ((e - s) as usize).min(rng.gen_range(1..40));
+                if !r.scan(s, len) { break; }
+            }
+        }
+        if r.aborted { continue; }
+        // a rewind across (or near) the blocks that hold the notes, a different continuation, the tip, a few batches
+        let top = r.chain.top();
+        let req = if i % 2 == 0 { top.saturating_sub(rng.gen_range(1..8)).max(r.chain.base + 1) } else { (new_notes_at + rng.gen_range(0..3)).min(top) };
+        if r.trunc(req, true).is_some() {
+            one(&mut r, &pools.iter().map(|p| (*p, true)).collect::<Vec<_>>());
+            r.empties(rng.gen_range(1..4));
+            one(&mut r, &[(all[perm[0]], true)]);
+            r.empties(2);
+            r.tip_top();
+            let top = r.chain.top();
+            r.scan(top - 3, 2);
+            r.put_roots();
+            // catch up with plain scans (after a rewind below an earlier batch the open C06 finding may refuse one)
+            for _ in 0..400 {
+                let scanned = r.scanned();
+                let top = r.chain.top();
+                let Some(from) = (r.chain.base + 1..=top).find(|h| !scanned.contains(&r.w.rel(*h))) else { break };
+                if !r.scan(from, rng.gen_range(1..60)) { break; }
+            }
+        }
+    }
+}
+
 fn main() {
     quiet_panics();
     let args: Vec<String> = std::env::args().collect();
@@ -340,6 +499,11 @@ fn main() {
     } else if args[2] == "shard-scenarios" {
         let n: u64 = args.get(3).map(|s| s.parse().unwrap()).unwrap_or(6);
         shard_scenarios(&mut out, seed_from_env(), n);
+        // `shard-scenarios <n> pools <m>`: also m histories with different shard boundaries per pool (C15)
+        if args.get(4).map(|s| s == "pools").unwrap_or(false) {
+            let m: u64 = args.get(5).map(|s| s.parse().unwrap()).unwrap_or(12);
+            shard_pool_scenarios(&mut out, seed_from_env(), m);
+        }
     } else if args[2] == "sync-scenarios" {
         let n: u64 = args.get(3).map(|s| s.parse().unwrap()).unwrap_or(8);
         sync_scenarios(&mut out, seed_from_env(), n, false);
